@@ -384,16 +384,7 @@ class Executor:
         for n, f in self.fns.items():
             if f.kind != "const":
                 continue
-            fs = split_path(n)
-            if len(fs) != len(segs):
-                continue
-            ok = True
-            for a, b in zip(segs, fs):
-                if a == b or b.startswith("<impl at"):
-                    continue
-                ok = False
-                break
-            if ok:
+            if seg_match(segs, split_path(n)):
                 cands.append(f)
         if len(cands) == 1:
             return cands[0]
@@ -1087,6 +1078,10 @@ class Executor:
 
 
 def seg_match(segs, fs):
+    # definitions in a dump may omit leading module segments that references carry
+    # (e.g. `decimal::<impl ..>::X` vs `lift::decimal::Decimal::X`)
+    if len(segs) > len(fs) and len(fs) >= 2:
+        segs = segs[len(segs) - len(fs):]
     if len(segs) != len(fs):
         return False
     for a, b in zip(segs, fs):
